@@ -12,8 +12,10 @@ RULE = ("API level: multisets of <=4 timestamps (duplicates, on bin edges, on in
 PROVED = ("countIn_spec, binLoop_centres (bin grid), countIn_counts + binLoop_counts (the k-th reported bin of an epoch counts exactly that epoch's "
           "samples with start+k*bin <= t < start+(k+1)*bin), countIn_sums + binLoop_sums (the same bin carries the SUM of exactly those samples' "
           "data, so bin_average = that sum / that count, NaN for an empty bin), nbBins_suffices (the preallocation never truncates); "
-          "C15 jitbin_safe")
-NOT_PROVED = "the float division sum/count, TsGroup column assembly, dtype, unit conversion of the bin size (C09 algebra)"
+          "C15 jitbin_safe; C05Axis: binLoop_axis / countK_axis / jitbin_axis / jitbin_columns_align (the reported bin centres depend on the epochs and "
+          "the bin only, never on the samples: TsGroup.count's preallocation from the FIRST member and its single time index are right for every column)")
+NOT_PROVED = "the float division sum/count, dtype, unit conversion of the bin size (C09 algebra), that TsGroup.count's Python loop is the per-member map (correspondence: group index x column vs model per member)"
+EXTRA_MODULES = ["C05Axis"]
 ASSUMPTIONS = ["series restricted and sorted; ep canonical; bin size a positive multiple of 2 ns so that centres are on the ns lattice"]
 
 SCALES = [2000, 10**6, 10**9, 7812500]
@@ -80,18 +82,28 @@ def one(ctx, ts, st, en, bk, sc, unit, dtype, lines, meta):
                 ctx.fail("oracle", "TsdFrame.bin_average column %d" % col, inp, impl=g, expected=e_)
 
 
-def group_case(ctx, sc):
+def group_case(ctx, sc, lines=None, meta=None):
     keys = sorted(ctx.rng.sample(range(20), 3)); ctx.rng.shuffle(keys)
     mem = {k: gen.rand_sorted(ctx.rng, 6, 10) for k in keys}
+    if ctx.rng.random() < 0.35:      # an empty member, sometimes the FIRST one (the one whose time index is reported for all)
+        mem[ctx.rng.choice([min(keys), ctx.rng.choice(keys)])] = []
     st, en = gen.rand_canonical(ctx.rng, 2, 10)
     bk = ctx.rng.choice([2, 4])
     inp = dict(group={str(k): v for k, v in mem.items()}, st=st, en=en, bk=bk, scale_ns=sc)
     ctx.case(("g", repr(inp)))
     full = iset([0], [10], sc)
-    g = nap.TsGroup({k: nap.Ts(farr(v, sc)) for k, v in mem.items()}, time_support=full)
+    g = nap.TsGroup({k: (nap.Ts(farr(v, sc)) if v else nap.Ts(np.array([]))) for k, v in mem.items()}, time_support=full)
     ep = iset(st, en, sc)
     b = bk * sc // 2
     c = g.count(b / 1e9, ep)
+    if lines is not None:
+        # tie of the column assembly to the model: the GROUP's time index paired with column j must be the model's jitcount of member j
+        # (C05Axis.jitbin_axis: the model's centres do not depend on the member, so one reported index serves all columns)
+        for j, k in enumerate(sorted(keys)):
+            tn = [t * sc for t in mem[k]]
+            lines.append("bin %s %s %s %s %d" % (enc(tn), enc([0] * len(tn)), enc([v * sc for v in st]), enc([v * sc for v in en]), b))
+            meta.append(("count", dict(inp, member=k, what="TsGroup.count time index x column"),
+                         list(zip([2 * ns(v) for v in c.t], [int(v) for v in c.values[:, j]]))))
     if list(c.columns) != sorted(keys):
         ctx.fail("oracle", "TsGroup.count columns are not the sorted keys", inp, impl=list(c.columns))
     for j, k in enumerate(sorted(keys)):
@@ -132,7 +144,7 @@ def run(ctx):
         one(ctx, list(ts), list(st), list(en), ctx.rng.choice([2, 3, 5, 7, 9, 12]), SCALES[k % len(SCALES)],
             ["s", "ms", "us"][k % 3], dtypes[k % 4], lines, meta)
     for k in range(60 if ctx.quick else 600):
-        group_case(ctx, ctx.rng.choice([2000, 10**9]))
+        group_case(ctx, ctx.rng.choice([2000, 10**9]), lines, meta)
     out = ctx.lean.run(lines) if ctx.lean else None
     if out is not None:
         for (kind, inp, got), o in zip(meta, out):
